@@ -43,12 +43,11 @@ Definition mod0 (ms : list pmod) : pmod :=
 Definition ex_m := mod0 w_example_mods.
 Definition ex_tok (i : N) := m_tok ex_m i.
 
-(* inside the domain of the theorems: C02's fragment, the structural link between the two token traversals,
-   a fresh name; 32 identifier tokens *)
+(* inside the domain of the theorems: C02's fragment, unique token ids, a fresh name; 32 identifier tokens *)
 Lemma example_domain :
   m_frag ex_m w_example_builtins w_example_idents w_example_init w_example_call w_example_odd w_example_prop = true
-  /\ well_tokened (pm_nlines ex_m) (pm_prog ex_m) = true
-  /\ fresh (pm_nlines ex_m) (pm_prog ex_m) w_example_fresh = true
+  /\ unique_ids (pm_prog ex_m) = true
+  /\ fresh_name (pm_prog ex_m) w_example_fresh = true
   /\ length (toks (pm_prog ex_m)) = 32%nat.
 Proof. vm_compute. auto. Qed.
 
